@@ -151,7 +151,7 @@ def suite_scalars(ctx: Ctx, eng: morph.Engine):
 
 
 def suite_containers(ctx: Ctx, eng: morph.Engine, n_specs: int, depth: int):
-    specs = eng.gen_specs(n_specs, depth)
+    specs = eng.gen_specs(n_specs, depth, tuple_matrix=True)
     recs = eng.load_records(specs, suite="load", n_valid=1, n_corrupt=3, n_hostile=4)
     for rec in recs:
         for cfg, out in rec.real.items():
